@@ -3,14 +3,30 @@
 //
 // Bounds (quick | thorough): width W in {2,3,4} | {2,3,4,5} with EVERY chunk count n in 0..W^3+W;
 // thorough adds the default width 174 with n in {1,2,173..176,348,349,30276,30277}. Chunker
-// "size-4" | "size-4" and "size-1"; for each (W,n) two contents: last chunk short (n*K-1 bytes)
-// and full (n*K bytes). Case ids are "W=<w>,n=<n>" (chunker / variant go into the detail).
-// Content from VERIF_SEED. Oracle: boxo v0.24.0 helpers.DagBuilderParams + balanced.Layout.
+// "size-4" | "size-4" and "size-1"; for each (W,n) two lengths: last chunk short (n*K-1 bytes)
+// and full (n*K bytes).
+//
+// Content classes, each over the whole (W,n) range above:
+//
+//	random    bytes from VERIF_SEED, (almost) all chunks distinct     case id "W=<w>,n=<n>"
+//	zeros     all-zero bytes: every full chunk is the same block      "W=<w>,n=<n>,content=zeros"
+//	period<p> p in 1..4: chunk i is pattern[i mod p], the p patterns  "W=<w>,n=<n>,content=period<p>"
+//	          pairwise different and not all-zero
+//	halves    ceil(n/2) random chunks followed by the same chunks     "W=<w>,n=<n>,content=halves"
+//	          again (cut to n chunks): identical intermediate subtrees
+//
+// The repetitive classes (n >= 1 only, the empty file is the same in every class) put the same
+// link several times under ONE interior node (equal leaves, and equal subtrees at every level),
+// which the random class practically never does; cumulative sizes count every occurrence.
+// Chunker / length go into the detail; a case that fails for several of them prints ONE VP-FAIL
+// line (first failing variant in full, the others listed). Oracle: boxo v0.24.0
+// helpers.DagBuilderParams + balanced.Layout.
 package c07
 
 import (
 	"bytes"
 	"fmt"
+	"strings"
 	"testing"
 
 	"github.com/ipfs/go-unixfsnode/data/builder"
@@ -18,6 +34,41 @@ import (
 
 	"replay/vp"
 )
+
+// class generates n chunks of k bytes each (the caller cuts a short tail off).
+type class struct {
+	name string // "" = random (the original case ids carry no content= part)
+	gen  func(n, k int, salt int64) []byte
+}
+
+func periodic(p int) func(n, k int, salt int64) []byte {
+	return func(n, k int, salt int64) []byte {
+		pat := vp.Content(p*k, salt)
+		pat[0] |= 1 // not the zeros class
+		for j := 1; j < p; j++ {
+			pat[j*k] = pat[0] + byte(2*j) // the p chunk patterns differ pairwise (also for k == 1)
+		}
+		out := make([]byte, 0, n*k)
+		for i := 0; i < n; i++ {
+			j := i % p
+			out = append(out, pat[j*k:(j+1)*k]...)
+		}
+		return out
+	}
+}
+
+var classes = []class{
+	{"", func(n, k int, salt int64) []byte { return vp.Content(n*k, salt) }},
+	{"zeros", func(n, k int, _ int64) []byte { return make([]byte, n*k) }},
+	{"period1", periodic(1)},
+	{"period2", periodic(2)},
+	{"period3", periodic(3)},
+	{"period4", periodic(4)},
+	{"halves", func(n, k int, salt int64) []byte {
+		h := vp.Content((n+1)/2*k, salt)
+		return append(append([]byte(nil), h...), h...)[:n*k]
+	}},
+}
 
 func TestBounded(t *testing.T) {
 	r := vp.New(t)
@@ -36,38 +87,62 @@ func TestBounded(t *testing.T) {
 			}
 		}
 		for _, n := range ns {
-			id := fmt.Sprintf("W=%d,n=%d", w, n)
-			for _, k := range vp.Pick([]int{4}, []int{4, 1}) {
-				for _, short := range []int{1, 0} {
-					if short == 1 && (k == 1 || n == 0) {
+			for _, cl := range classes {
+				id := fmt.Sprintf("W=%d,n=%d", w, n)
+				if cl.name != "" {
+					if n == 0 {
 						continue
 					}
-					size := n*k - short
-					variant := fmt.Sprintf("size-%d,len=%d", k, size)
-					r.Eval(id + "," + variant)
-					content := vp.Content(size, int64(w*1000000+n*10+k+short))
-					chunker := fmt.Sprintf("size-%d", k)
-					st := vp.NewStore()
-					l, sz, err := builder.BuildUnixFSFile(bytes.NewReader(content), chunker, st.LS())
-					if err != nil {
-						r.Fail(id, "%s: build error %v", variant, err)
-						continue
+					id += ",content=" + cl.name
+				}
+				var first string    // first failing variant, in full
+				var others []string // further failing variants
+				for _, k := range vp.Pick([]int{4}, []int{4, 1}) {
+					for _, short := range []int{1, 0} {
+						if short == 1 && (k == 1 || n == 0) {
+							continue
+						}
+						size := n*k - short
+						variant := fmt.Sprintf("size-%d,len=%d", k, size)
+						r.Eval(id + "," + variant)
+						content := cl.gen(n, k, int64(w*1000000+n*10+k+short))[:size]
+						chunker := fmt.Sprintf("size-%d", k)
+						st := vp.NewStore()
+						l, sz, err := builder.BuildUnixFSFile(bytes.NewReader(content), chunker, st.LS())
+						if err != nil {
+							if first == "" {
+								first = fmt.Sprintf("%s: build error %v", variant, err)
+							} else {
+								others = append(others, variant)
+							}
+							continue
+						}
+						ref, err := vp.NewBoxo().ImportFile(content, chunker, "balanced", w, true, 1)
+						if err != nil {
+							t.Fatalf("%s: boxo: %v", id, err)
+						}
+						rsz, err := ref.Size()
+						if err != nil {
+							t.Fatal(err)
+						}
+						got := l.(cidlink.Link).Cid
+						if n == w*w+1 && short == 0 && (cl.name == "" || cl.name == "zeros" || cl.name == "halves") {
+							r.Sample(map[string]any{"case": id, "variant": variant, "ours": got.String(), "ref": ref.Cid().String(), "size": sz, "refSize": rsz})
+						}
+						if !got.Equals(ref.Cid()) || sz != rsz {
+							if first == "" {
+								first = fmt.Sprintf("%s: builder %s size %d, boxo balanced %s size %d", variant, got, sz, ref.Cid(), rsz)
+							} else {
+								others = append(others, variant)
+							}
+						}
 					}
-					ref, err := vp.NewBoxo().ImportFile(content, chunker, "balanced", w, true, 1)
-					if err != nil {
-						t.Fatalf("%s: boxo: %v", id, err)
-					}
-					rsz, err := ref.Size()
-					if err != nil {
-						t.Fatal(err)
-					}
-					got := l.(cidlink.Link).Cid
-					if n == w*w+1 && short == 0 {
-						r.Sample(map[string]any{"case": id, "variant": variant, "ours": got.String(), "ref": ref.Cid().String(), "size": sz, "refSize": rsz})
-					}
-					if !got.Equals(ref.Cid()) || sz != rsz {
-						r.Fail(id, "%s: builder %s size %d, boxo balanced %s size %d", variant, got, sz, ref.Cid(), rsz)
-					}
+				}
+				switch {
+				case first != "" && len(others) > 0:
+					r.Fail(id, "%s [also differs for: %s]", first, strings.Join(others, "; "))
+				case first != "":
+					r.Fail(id, "%s", first)
 				}
 			}
 		}
